@@ -70,7 +70,8 @@ def main():
                 names = []
                 for f in tests:
                     names += re.findall(r"^func (Test\w+)\(", open(os.path.join(demo, f)).read(), re.M)
-                return sh("go test -vet=off -count=1 -run '^(%s)$' ./%s/" % ("|".join(names), d), cwd=wt)
+                tags = "-tags verif " if any("go:build verif" in open(os.path.join(demo, f)).read() for f in tests) else ""
+                return sh("go test -vet=off -count=1 %s-run '^(%s)$' ./%s/" % (tags, "|".join(names), d), cwd=wt)
             finally:
                 for f in tests:
                     os.remove(os.path.join(wt, d, f))
